@@ -19,7 +19,7 @@ ASSUMPTIONS = [
 ]
 REQUIRED = {t: ['source:driver', 'source:replica', 'problem:Smooth', 'problem:Singular', 'problem:Dirichlet', 'problem:MildSingular',
                 'domain:UnitSquare', 'domain:PiSquare', 'domain:LShape', 'domain:Circle', 'switch:exact', 'switch:quad',
-                'elem:first-slab', 'elem:seam', 'elem:finest', 'elem:screened', 'driver:second-loop', 'data:initial', 'data:dirichlet']
+                'elem:first-slab', 'elem:seam', 'elem:finest', 'elem:screened', 'driver:second-loop', 'driver:second-problem-in-the-same-directory', 'data:initial', 'data:dirichlet']
             for t in ('quick', 'thorough')}
 TIMEOUT = {'quick': 1800, 'thorough': 9000}
 
@@ -43,6 +43,8 @@ def plan(tier, seed):
     for p, d, ref, exact in drv:
         specs.append({'name': 'driver-%s-%s-%s-%s' % (p, d, ref, 'exact' if exact else 'quad'), 'mode': 'driver', 'problem': p, 'domain': d,
                       'refinement': ref, 'exact': exact, 'loops': 2, 'n_elem': 5 if tier == 'quick' else 10})
+    specs.append({'name': 'driver-Singular-after-Smooth-UnitSquare', 'mode': 'driver', 'problem': 'Singular', 'domain': 'UnitSquare', 'after': 'Smooth',
+                  'refinement': 'uniform', 'exact': False, 'loops': 2, 'n_elem': 5 if tier == 'quick' else 10})
     # (ii) replicas on random meshes
     for i, (p, d) in enumerate(COMBOS):
         for k in range(1 if tier == 'quick' else 3):
@@ -148,7 +150,25 @@ def run_driver_shard(spec, acc):
     if spec['exact']:
         argv.append('--single-layer-exact')
     wit0 = {'driver_argv': argv}
-    caps, err = run_driver(argv, loops=spec['loops'])
+    workdir = None
+    if spec.get('after'):
+        # the driver is first run for ANOTHER problem on the same domain in the same working directory (its ./data cache stays behind),
+        # as a user does who computes Smooth and then Singular; only the second run is judged
+        import shutil
+        import tempfile
+        from .. import env
+        workdir = tempfile.mkdtemp(prefix='driver-seq-', dir=env.scratch_root())
+        argv0 = ['--problem', spec['after'], '--domain', spec['domain'], '--refinement', spec['refinement'], '--no-h-h2'] + (['--single-layer-exact'] if spec['exact'] else [])
+        _, err0 = run_driver(argv0, loops=spec['loops'], workdir=workdir)
+        wit0['earlier_run_in_the_same_directory'] = argv0
+        acc.seen('driver:second-problem-in-the-same-directory')
+        if err0 is not None and repo_frame(err0) is None:
+            raise err0
+    try:
+        caps, err = run_driver(argv, loops=spec['loops'], workdir=workdir)
+    finally:
+        if workdir:
+            shutil.rmtree(workdir, ignore_errors=True)
     if err is not None:
         fr = repo_frame(err)
         if fr is None:
